@@ -1118,7 +1118,7 @@ def run(rep, tier, rng):
     for k in (0, len(kept) // 3, 2 * len(kept) // 3, len(kept) - 1):
         if 0 <= k < len(kept):
             rep.sample({"case": public(kept[k][0]), "implementation": {"runs": [{kk: vv for kk, vv in x.items() if kk in ("cli", "wout", "file")} for x in kept[k][1]["runs"]]}})
-    rep.extra["exhaustive"] = "source subsets: all 2^5 subsets of {command line, user section, FI db section, OFX Home, user [DEFAULT]} for each of the %d CONFIGURABLE options and 7 command-line-only ones" % len(tables["configurable"])
+    rep.extra["exhaustive_part"] = "source subsets: all 2^5 subsets of {command line, user section, FI db section, OFX Home, user [DEFAULT]} for each of the %d CONFIGURABLE options and 7 command-line-only ones" % len(tables["configurable"])
     rep.rule = ("corpus first; sweep: every option x all 32 subsets of the five places a value can come from, distinct values per place; persist: every CONFIGURABLE option x values of its domain "
                 "(URLs over all URL-legal characters incl. %, account lists of 1..20 ids, integers, flags) written with --write and re-read by a second run; random: 1..5 runs on one file with "
                 "several options from random places; reset / list-quoting / [DEFAULT] probes (known findings); libdefault: nicknames whose FI section (bundled fi.cfg and generated) disagrees with a built-in default, the command line gives the built-in default or the FI value, --write, then a run without it; wild: out-of-domain values and nicknames (DEFAULT, URL as nickname, blanks, quotes, newlines); "
